@@ -208,6 +208,14 @@ def w_random(acc, n, seed):
     harness.run_hyp(acc, "middleware", o_middleware, mw, max(100, n // 4), seed)
 
 
+def w_fuzz(acc, runs, seed):
+    """Coverage-guided engine: names.py is a character-level state machine in pure Python, so libFuzzer's coverage
+    feedback applies; the oracle (reference differential + invariants) runs inside the target."""
+    from .. import fuzzrun
+
+    fuzzrun.run_atheris(acc, "C13", "parse", o_parse, runs, seed, tokens.SIGMA_N, ["Donald E. Knuth", "von Last, Jr, First", "{\\\\'E}mile de la {Foo Bar}"], max_len=64)
+
+
 def run(chk):
     bad = refnames.validate_on_corpus()
     if bad:
@@ -225,6 +233,7 @@ def run(chk):
     shards = 8 if quick else 32
     for s in range(shards):
         tasks.append(("w_random", (n_rand // shards, harness.seed_for(chk.seed, PROP, s))))
+    tasks.insert(0, ("w_fuzz", (100000 if quick else 3000000, chk.seed)))
     harness.pmap(chk.acc, MODNAME, tasks)
     chk.acc.exhaustive["name-tokens"] = f"every sequence of length <= {tok_len} over the 13-token alphabet {tokens.SIGMA_N!r}"
     chk.acc.exhaustive["name-words"] = (
